@@ -4,13 +4,15 @@
 set -u
 ID=$1; SD=${2:-/tmp/seed_$ID}
 export GOFLAGS=-mod=mod GOPROXY=off GOSUMDB=off GOTOOLCHAIN=local
-S=/tmp/sv_$ID; rm -rf $S; mkdir -p $S; rsync -a --exclude .git /repo/ $S/
-echo "== demo on clean tree"; (cd $SD && bash ./run_demo.sh $S >/tmp/sv_$ID.clean.log 2>&1); echo "clean exit=$?"
+S=/tmp/sv_$ID${ROUND:-}; rm -rf $S; mkdir -p $S; rsync -a --exclude .git /repo/ $S/
+echo "== demo on clean tree"; (cd $SD && bash ./run_demo.sh $S >/tmp/sv_$ID${ROUND:-}.clean.log 2>&1); echo "clean exit=$?"
 (cd $S && git init -q . 2>/dev/null; patch -p1 -s < $SD/patch.diff) || { echo PATCH-FAILED; exit 2; }
 echo "== build+tests with patch"; (cd $S && go build ./... && go test -count=1 ./... 2>&1 | grep -v "no test files" | grep -v "^ok" ; echo "build/test done")
-echo "== demo with patch"; (cd $SD && bash ./run_demo.sh $S >/tmp/sv_$ID.patched.log 2>&1); echo "patched exit=$?"
+echo "== demo with patch"; (cd $SD && bash ./run_demo.sh $S >/tmp/sv_$ID${ROUND:-}.patched.log 2>&1); echo "patched exit=$?"
 echo "== checker"
-for P in $(python3 -c "import json;print(' '.join(c['property_id'] for c in json.load(open('/verif/MANIFEST.json'))['checks']))"); do
+PROPS=$(python3 -c "import json;print(' '.join(c['property_id'] for c in json.load(open('/verif/MANIFEST.json'))['checks']))")
+[ -n "${ONLY_OWN:-}" ] && PROPS=$ID
+for P in $PROPS; do
   out=$(VERIF_REPO=$S VERIF_EVIDENCE_DIR=$S/.ev /verif/bin/vcheck $P 2>&1); rc=$?
   if [ $rc -ne 0 ]; then echo "FLAGGED by $P:"; echo "$out" | grep -E "VIOLATED|UNDECIDED" | cut -c1-400 | head -5; fi
 done
